@@ -75,8 +75,10 @@ def plan(tier, seed):
     units += [("bytes",), ("labels",), ("chains",)]
     units += [("stream", u) for u in streams.plan(tier, fams=STREAM_FAMS, lite=1)]
     for src in ("file", "stdin"):
-        for mode in ("default", "--json", "--replace"):
+        for mode in ("default", "--json", "--replace", "-j", "-r"):
             for kw in ("shipped", "fixture", "nondir"):
+                if mode.startswith("-") and len(mode) == 2 and kw == "shipped":
+                    continue  # short flags are exercised with the cheap keyword options only
                 units.append(("cli", src, mode, kw))
     units += [("subprocess", mode) for mode in ("default", "--json", "--replace")]
     return units
@@ -215,6 +217,7 @@ def make_label(n):
 
 
 def check_cli_output(rec, mode, data, out, tree, w, size):
+    mode = {"-j": "--json", "-r": "--replace"}.get(mode, mode)
     rec.count("transitions", len(trees.walk(tree)) + 1)
     if mode == "--json":
         exp = jc.tree_to_json(tree)
